@@ -120,8 +120,29 @@ def replay(path):
     obj = json.load(open(path))
     prop = obj["property"]
     if not obj.get("case"):
-        print("replay file has no dictionary case; see 'extra'")
+        print("replay file has no case; see 'extra'")
         return 2
+    if obj["case"].get("driver") == "pool_driver":
+        from poolcheck import PoolRun, PoolCase
+        cj = obj["case"]
+        case = PoolCase(cj["mode"], cj["flavor"], cj["seed"], cj["args"], cj.get("input", ""), unb64list(cj.get("S_b64", [])))
+        build(case.flavor)
+        wd = workdir_for("replay")
+        try:
+            hit = False
+            for attempt in range(20):   # the seed reproduces the delay plan, not the OS interleaving: up to 20 attempts
+                run = PoolRun(prop, "quick", 1, wd, Known(os.devnull))
+                run.record_pool(run.run_pool_case(case))
+                for skey, e in run.findings.items():
+                    print("attempt %d observed: %s :: %s" % (attempt + 1, skey, e["detail"][:300]))
+                    if e["sig"]["fclass"] == obj["signature"]["fclass"]:
+                        hit = True
+                if hit:
+                    break
+            print("REPRODUCED" if hit else "not reproduced in 20 attempts")
+            return 1 if hit else 0
+        finally:
+            shutil.rmtree(wd, ignore_errors=True)
     case = Case.from_json(obj["case"])
     build(case.flavor)
     wd = workdir_for("replay")
@@ -161,6 +182,8 @@ def dict_check(prop, tier, seed, wd, explore, limit, kinds, write_evidence, case
 def c01(prop, tier, seed, wd, explore, limit, kinds, we):
     cases = P.basic_cases(prop, seed, tier, ops=("locate", "extract"))
     cases += P.boundary_sweep(prop, seed, tier, ("locate", "extract"), states=("own", "fresh", "resaved"))
+    cases += P.hash_sweep(prop, seed, tier, ("locate", "extract"), overheads=(0, 10))
+    cases += P.numeral_sweep(prop, seed, tier, ("locate", "extract"))
     rule = ("every dictionary size 1..34 x bucket sizes 2,3,4,8 for the five front-coding kinds (boundary sweep); corner corpus + seeded random input sets x 13 kinds x seeded parameter vector x 2 of {fresh, own loader, generic loader}; a case is (kind, params, input set, state); "
             "non-trivial = completed case with >=2 strings and, for front-coding kinds, >=2 buckets or a partially filled last bucket; distinct by hash of (kind, params, input, state)")
     return dict_check(prop, tier, seed, wd, explore, limit, kinds, we, cases, rule)
@@ -180,6 +203,8 @@ def c02(prop, tier, seed, wd, explore, limit, kinds, we):
 @register("C03")
 def c03(prop, tier, seed, wd, explore, limit, kinds, we):
     cases = P.basic_cases(prop, seed, tier, ops=("locate", "extract", "rank"))
+    cases += P.boundary_sweep(prop, seed, tier, ("locate", "extract", "rank"), bsizes=(2, 4, 8))
+    cases += P.numeral_sweep(prop, seed, tier, ("locate", "extract"))
     return dict_check(prop, tier, seed, wd, explore, limit, kinds, we, cases, RULE_BASE + "; order oracle on the 7 order-preserving kinds, rank oracle on every kind that answers extractRank")
 
 @register("C04")
@@ -405,7 +430,7 @@ def c12(prop, tier, seed, wd, explore, limit, kinds, we):
                 cuts = [1, min(len(s) for s in S) + 1, max(1, textlen // 2), max(1, textlen // 3), max(1, textlen // 7), textlen + 10]
                 pvs = [(r.choice([0, 25, 100]), c, t) for c, t in zip(r.sample(cuts, 3), r.sample([1, 2, 3, 4, 8], 3))]
             elif kind == "FMINDEX":
-                pvs = [(0, r.choice([1, 2, 4, 20, 40]), r.choice([1, 2, 3, 4])), (1, r.choice([1, 8, 16, 32, 128]), r.choice([8, 16, 64, textlen + 5])), (r.choice([0, 1]), 20, 0)]
+                pvs = [(0, r.choice([1, 2, 3, 4, 20, 40]), r.choice([1, 2, 3, 4])), (1, r.choice([1, 8, 16, 32, 128]), r.choice([8, 16, 64, textlen + 5])), (1, r.choice([3, 5, 7]), r.choice([0, 2, 5])), (r.choice([0, 1]), 20, 0)]
             else:
                 pvs = [()]
             for p in pvs:
@@ -415,6 +440,7 @@ def c12(prop, tier, seed, wd, explore, limit, kinds, we):
                 opts = [1] if kind not in ("HASHHF", "HASHRPF") or st == "fresh" else [r.choice([1, 2, 3])]
                 for opt in opts:
                     cases.append(Case(kind, p, iname, S, st, opt, (), big=(tier == "thorough"), seed=cseed, extra=("--qbs", str(qbs)), tags=("clamp",) if kind in FC and p[0] < 2 else ()))
+    cases += P.hash_sweep(prop, seed, tier, ("locate", "extract", "locate_absent", "extractTable", "meta"))
     RAW_SECS = {"locate", "extract", "absent", "badid", "rank", "table", "locatePrefix", "extractPrefix", "locateSubstr", "extractSubstr"}
     def cmpfn(a, b, sec):
         if a.kind in ORDERED and b.kind in ORDERED:
@@ -476,3 +502,85 @@ def c16_full(prop, tier, seed, wd, explore, limit, kinds, we):
     t0 = time.time()
     run.run_all(cases, nt)
     return finish(prop, tier, seed, run, time.time() - t0, rule, explore=explore, write_evidence=we, extra_cov={"all_2p32_tags_enumerated": exhaustive})
+
+# ---------------------------------------------------------------------------------------------------- concurrency (pool_driver)
+from poolcheck import PoolRun, PoolCase
+
+def block_inputs(prop, seed, tier):
+    r = P.rng_for(seed, prop, 5)
+    sets = [("words66", P.WORDS), ("repo53", dict(gen.corner_corpus())["repo53"]), ("numerals150", gen.fam_numerals(r, 150)),
+            ("urls", gen.fam_urls(r, 80)), ("near", gen.fam_near(r, 40)), ("uniform4", gen.fam_uniform(r, 120, "a4", 1, 10)), ("chain", gen.fam_chain(r, 40)),
+            ("len1", gen.fam_len1(r, 60)), ("two", [b"a", b"b"]), ("last_single", gen.fam_last_single(r, 48))]
+    if tier == "thorough":
+        sets += [("numerals1000", dict(gen.corner_corpus())["numerals1000"]), ("urls2000", gen.fam_urls(r, 2000)), ("words2000", gen.fam_words(r, 2000)), ("numerals20000", gen.fam_numerals(r, 20000))]
+    return sets
+
+def conc_finish(prop, tier, seed, run, wall, rule, explore, we, required, extra):
+    run.counters["distinct_completion_orders"] = len(run.orders)
+    extra = dict(extra or {})
+    extra.update({"distinct_completion_orders": len(run.orders), "tsan_distinct_reports": {"%s@%s" % k: v for k, v in run.tsan_seen.items()}})
+    return finish(prop, tier, seed, run, wall, rule, explore=explore, write_evidence=we, required_classes=required, extra_cov=extra,
+                  assumptions=["hook events are recorded lock-free and read only after all threads were joined", "delays are injected at the LIBCSD_VERIF schedule points and (plain flavor) before pthread_cond_wait blocks",
+                               "deadlock = every thread of the process blocked in futex with unchanged context-switch and CPU counters for > 1 s (scheduler state, not a deadline)",
+                               "ThreadSanitizer models std::mutex / condition_variable / thread join, the only synchronisation used"])
+
+@register("C10")
+def c10(prop, tier, seed, wd, explore, limit, kinds, we):
+    build("plain"); build("tsan")
+    run = PoolRun(prop, tier, seed, wd, Known())
+    nproc = 16
+    per = 140 if tier == "quick" else 6500
+    cases = []
+    for k in range(nproc):
+        cases.append(PoolCase("pool", "plain", gen.splitmix(seed, 10, k), ["--lifecycles", str(per), "--delay-us", str([300, 600, 1200, 100][k % 4]), "--window", "1", "--maxworkers", "8", "--maxtasks", "64"]))
+    for k in range(8 if tier == "quick" else 16):
+        cases.append(PoolCase("pool", "plain", gen.splitmix(seed, 11, k), ["--lifecycles", str(per * 2), "--delay-us", "0", "--window", "0"]))   # no injected delay at all: the OS schedule
+    for k in range(8 if tier == "quick" else 16):
+        cases.append(PoolCase("pool", "tsan", gen.splitmix(seed, 12, k), ["--lifecycles", str(per // 2), "--delay-us", "150", "--window", "0"]))
+    if limit:
+        cases = cases[:limit]
+    wall = run.run_pool_all(cases)
+    rule = ("a case is one pool_driver process running N seeded pool lifecycles (1-8 workers, 0-64 tasks, four producer protocols: add-all/stop/wait, wait-for-completion then stop, a task stops the pool, tasks trickling in); "
+            "per task an execution counter and an in-flight flag, per lifecycle the hook event log (enqueue/pop/begin/end/exit) is checked offline; plain flavor with the pthread_cond_wait interposer widening the "
+            "predicate-to-block window and seeded delays at the schedule points, deadlock decided from scheduler state; repeated without delays and under TSan; distinct = process seeds, non-trivial = completed")
+    return conc_finish(prop, tier, seed, run, wall, rule, explore, we, ("window_hits", "add_in_window", "tasks_0", "workers_1", "protocol_a", "protocol_b", "protocol_c", "protocol_d"), {"lifecycles": run.counters.get("eval.lifecycle", 0)})
+
+@register("C09")
+def c09(prop, tier, seed, wd, explore, limit, kinds, we):
+    build("plain"); build("tsan")
+    run = PoolRun(prop, tier, seed, wd, Known())
+    cases = []
+    ns = 30 if tier == "quick" else 500
+    for i, (iname, S) in enumerate(block_inputs(prop, seed, tier)):
+        for rep in range(2):
+            cases.append(PoolCase("blocks", "plain", gen.splitmix(seed, 20 + rep, i), ["--schedules", str(ns), "--delay-us", str([150, 400][rep])], iname, S))
+        if i % 2 == 0 or tier == "thorough":
+            cases.append(PoolCase("blocks", "tsan", gen.splitmix(seed, 23, i), ["--schedules", str(max(4, ns // 8)), "--delay-us", "100"], iname, S))
+    if limit:
+        cases = cases[:limit]
+    wall = run.run_pool_all(cases)
+    rule = ("a case is one pool_driver process building the block dictionary of one input under N seeded schedules: cut size from one string per block to one block, overhead, 2-16 threads, delay plans at the block "
+            "schedule points forcing reversed / rotated / random completion orders and a slow producer; each build is compared bytewise with the image of the single-threaded build, the block event chain "
+            "(queued->begin->built->stored exactly once, all before return) and every locate/extract against the model; distinct = (input, seed), non-trivial = completed")
+    return conc_finish(prop, tier, seed, run, wall, rule, explore, we, ("blocks_ge2", "blocks_1", "blocks_eq_n", "order_not_input_order"), {"max_concurrent_builders": run.counters.get("max_concurrent_builders", 0)})
+
+@register("C11")
+def c11(prop, tier, seed, wd, explore, limit, kinds, we):
+    build("tsan")
+    run = PoolRun(prop, tier, seed, wd, Known())
+    cases = []
+    ns = 10 if tier == "quick" else 200
+    for i, (iname, S) in enumerate(block_inputs(prop, seed, tier)):
+        if len(S) < 4:
+            continue
+        for rep in range(2 if tier == "quick" else 4):   # race reports vary run to run: repeat
+            cases.append(PoolCase("blocks", "tsan", gen.splitmix(seed, 30 + rep, i), ["--schedules", str(ns), "--delay-us", str([0, 120, 300, 50][rep])], iname, S))
+    for k in range(8 if tier == "quick" else 32):
+        cases.append(PoolCase("pool", "tsan", gen.splitmix(seed, 40, k), ["--lifecycles", str(80 if tier == "quick" else 2000), "--delay-us", str([0, 100][k % 2]), "--window", "0"]))
+    if limit:
+        cases = cases[:limit]
+    wall = run.run_pool_all(cases)
+    rule = ("a case is one pool_driver process of the ThreadSanitizer flavor: block dictionaries built with 2-16 threads over inputs giving >= 2 blocks (every worker runs Re-Pair, hashing and DAC construction "
+            "at the same time) under seeded delay plans, and pool lifecycles whose tasks touch only their own state; TSan report blocks are counted and de-duplicated by the pair of top repository frames; "
+            "distinct = (input, seed), non-trivial = completed")
+    return conc_finish(prop, tier, seed, run, wall, rule, explore, we, ("blocks_ge2",), {"max_concurrent_builders": run.counters.get("max_concurrent_builders", 0)})
